@@ -2,7 +2,9 @@
 
 Six kinds of case, all decided on the real library against an independent text-level algebra (compl_text / norm /
 canon below):
-  alg    one link a and a second link b (its complement / the same / one field changed / unrelated): complement()
+  alg    one link a and a second link b (its complement / the same / one field changed / HALF of the symmetry applied:
+         a or its complement with only the CIGAR complemented, or with only the segments swapped and the orientations
+         inverted, the overlap not being its own complement - a different edge, tag rel_half / unrelated): complement()
          is right, involutive (claim codes MIDP=XH), does not mutate; the overlap's reference and query lengths are
          exchanged; is_same / is_complement / is_eql are repeatable, symmetric and equal to the text-level truth.
   edit   two free-standing links a, b with specified overlaps (b the complement of a / a near miss of it which the first
@@ -38,6 +40,10 @@ canon below):
              (when both are specified); two steps which spell the same edge (specified overlaps, either form) are
              resolved to one and the same link object;
            - the Gfa stores exactly one link per edge, in the form which arrived first; no placeholder link is left;
+           - is_same / is_complement / is_eql between every two STORED links (parallel links which differ only in the
+             overlap - also by half of the symmetry only - are different edges), of a stored link with itself and with a
+             free-standing line of its other form: both ways, equal to the text-level truth
+             (signatures multi-stored-<test>-wrong);
            - every step of every path is resolved (object identity) to THE stored link with that overlap from either
              form (to any link between the two segment ends for a `*` step), flag + iff the step is the stored form
              (no claim where the two forms cannot be told apart: self-complementary oriented pair with `*` or a
@@ -80,7 +86,9 @@ LEAN = {
     ],
 }
 RULE = ("random links over a 5-name pool (self-links, hairpins), CIGARs of 0-4 operations over MIDP=XH (10% also S/N, "
-        "outside the involution claim), four orientation pairs; edit cases change the CIGAR of either link IN PLACE "
+        "outside the involution claim), four orientation pairs, the second link of an alg case being the complement, "
+        "the same, one field changed, half of the symmetry applied (only the CIGAR complemented / only the segments "
+        "swapped and inverted, overlap not its own complement) or unrelated; edit cases change the CIGAR of either link IN PLACE "
         "(length/code of an operation, append/insert/pop/delete; random, undoing, or mirrored on the other link) and "
         "re-ask every equivalence test after every edit; graph cases add link/complement/different link; gedit cases "
         "edit the CIGAR of the stored link in place and add the complement of its present reading after every edit, then "
@@ -88,7 +96,8 @@ RULE = ("random links over a 5-name pool (self-links, hairpins), CIGARs of 0-4 o
         "documents with 1-3 parallel links (differing only in the overlap) per pair of segment ends, in either form, "
         "with 0-3 paths of 1-3 steps, in random arrival order (3 in 10: paths over one edge in both directions, `*` and "
         "spelled overlaps which are not their own complement, arriving before the links), checked after every line "
-        "(flag/overlap of every resolved step consistent with the link it is bound to, one link object per edge), then "
+        "(flag/overlap of every resolved step consistent with the link it is bound to, one link object per edge), "
+        "is_same/is_complement/is_eql asked between every two stored links and of each with its other form, then "
         "the complement of every stored link is added and a path over every stored link in each direction. "
         "Non-trivial: overlap specified with >=2 operations or a self-link, or a path or multi case.")
 ASSUMPTIONS = ["tags take no part in link identity (not modelled)",
@@ -128,14 +137,25 @@ def gen_case(rng, tier, i):
     if k < 0.37:
         a = gen_link(rng)
         r = rng.random()
-        if r < 0.3:
+        if r < 0.27:
             b = compl_text(a)
-        elif r < 0.5:
+        elif r < 0.45:
             b = list(a)
-        elif r < 0.75:
+        elif r < 0.67:
             b = list(a if rng.random() < 0.5 else compl_text(a))
             j = rng.randrange(5)
             b[j] = gen_link(rng)[j]
+        elif r < 0.80:
+            # HALF of the symmetry: the overlap is not its own complement, and b is a (or its complement) with only
+            # the CIGAR complemented, or with only the segments swapped and the orientations inverted - another edge
+            # (unless the oriented pair is its own complement, a hairpin-like self-link: then b is a again or its
+            # complement, which norm() decides like everything else)
+            a[4] = gen_asym_cigar(rng)
+            b = list(a if rng.random() < 0.5 else compl_text(a))
+            if rng.random() < 0.5:
+                b[4] = cigar_compl_text(b[4])
+            else:
+                b = compl_text(b); b[4] = cigar_compl_text(b[4])
         else:
             b = gen_link(rng)
         return {"kind": "alg", "a": a, "b": b}
@@ -546,6 +566,14 @@ def pairkey(l):
     return min(tuple(l[:4]), (l[2], inv(l[3]), l[0], inv(l[1])))
 
 
+def half_related(a, b):
+    """b is not the edge a, but becomes a or its complement when only its CIGAR is complemented (half of the symmetry:
+    the other half, swapping the segments and inverting the orientations, is the same relation seen from the complement)"""
+    if a[4] == "*" or b[4] == "*" or canon(a) == canon(b):
+        return False
+    return canon(a) == canon(list(b[:4]) + [cigar_compl_text(b[4])])
+
+
 def claim(l):
     return not any(k in "SN" for _, k in ops_of(l[4])) if l[4] != "*" else True
 
@@ -572,6 +600,8 @@ def tags(case):
             t.append(case["shape"])
     if case["kind"] == "alg":
         t.append("rel_compl" if norm(case["b"]) == norm(compl_text(a)) else ("rel_same" if norm(case["b"]) == norm(a) else "rel_other"))
+        if t[-1] == "rel_other" and half_related(a, case["b"]):
+            t.append("rel_half")
     return t
 
 
@@ -946,6 +976,23 @@ def oracle_multi(gfapy, case):
         return F
     if virt:
         F.append("multi-link-left-virtual: %r leaves the placeholder links %r" % (lines, [str(v) for v in virt]))
+
+    # the equivalence tests between the links of the Gfa (stored line objects; they are different edges, parallel
+    # links differing only in the overlap - also in half of the symmetry only - included) and between each of them and a
+    # free-standing line of its other form
+    for i, L1 in enumerate(real):
+        f1 = fields(L1)
+        others = [(L2, fields(L2), "the stored link") for L2 in real[i:]]
+        others.append((gfapy.Line(ltext(compl_text(f1))), compl_text(f1), "the free-standing link"))
+        for L2, f2, what in others:
+            for name, t in (("is_same", key(f1) == key(f2)), ("is_complement", key(f1) == key(compl_text(f2))),
+                            ("is_eql", canon(f1) == canon(f2))):
+                r1 = lib.outcome(getattr(L1, name), L2); r2 = lib.outcome(getattr(L2, name), L1)
+                if (r1[0], bool(r1[1])) != ("ok", t) or (r2[0], bool(r2[1])) != ("ok", t):
+                    F.append("multi-stored-%s-wrong: %r: the stored link %r and %s %r: %s gives %r one way and %r the other way, "
+                             "the texts say %r" % (name, lines, " ".join(f1), what, " ".join(f2), name, r1[1], r2[1], t))
+    if F:
+        return F
 
     def check_step(tag, p, k, st, cs):
         if len(p.links) <= k:
